@@ -57,14 +57,16 @@ DigitsMatch(r, exp) ==
 
 TScanRet ==
   /\ IsEv("sret")
-  /\ ~R.panic
-  /\ AReturn
-  /\ CASE R.fn \in {"tabs_or_spaces", "newline", "next_newline", "fixed"} ->
-             R.end = ScanEnd(R.fn, Visible, R.off, R.pat)
-       [] R.fn \in {"ascii_digits", "ascii_digits_multi"} ->
-             DigitsMatch(R, UDigits(Visible, R.off, R.ty))
-       [] R.fn \in {"signed_ascii_digits", "signed_ascii_digits_multi"} ->
-             DigitsMatch(R, SDigits(Visible, R.off, R.ty))
+  /\ IF R.panic
+       THEN /\ pend = Idle /\ ROp(ret) = "panic"     \* only the specified panic (the source over-reported, AOverrun)
+            /\ UNCHANGED avars
+       ELSE /\ AReturn
+            /\ CASE R.fn \in {"tabs_or_spaces", "newline", "next_newline", "fixed"} ->
+                       R.end = ScanEnd(R.fn, Visible, R.off, R.pat)
+                 [] R.fn \in {"ascii_digits", "ascii_digits_multi"} ->
+                       DigitsMatch(R, UDigits(Visible, R.off, R.ty))
+                 [] R.fn \in {"signed_ascii_digits", "signed_ascii_digits_multi"} ->
+                       DigitsMatch(R, SDigits(Visible, R.off, R.ty))
   /\ PostMatches
 
 TSrc ==
@@ -104,7 +106,14 @@ TInit ==
   /\ pos = 0 /\ avail = 0 /\ mark = 0 /\ complete = FALSE /\ err = FALSE /\ chunk = 1
   /\ pend = Idle /\ ret = NoRet
 
-TNext == TReset \/ TCall \/ TSrc \/ TRet \/ TOp \/ TScanCall \/ TScanRet
+\* a multi-byte scanner entered its fast path: it loads 8 bytes at `off`, so 8 bytes must be buffered there (C14)
+TFp ==
+  /\ IsEv("fp")
+  /\ R.buf_len >= R.off + 8
+  /\ R.buf_len = avail
+  /\ UNCHANGED avars
+
+TNext == TReset \/ TCall \/ TSrc \/ TRet \/ TOp \/ TScanCall \/ TScanRet \/ TFp
 
 TSpec == TInit /\ [][TNext]_tvars
 
